@@ -25,6 +25,14 @@ CHECKS={
         "Every operator x every population of size 0..3 (quick) / 0..4 (thorough) over the objective grid {-1,0,1,+inf} (plus positive-only and DE-sized populations) x every requested count 0..n+1 is executed on the real component for every tape of menu words over the first 3 (quick) / 4 (thorough) generator draws; stack effect, exact-copy membership, counts, documented errors and structural rules (distinctness, tournament-of-all = best, DE group layout) are checked on each execution. Selection pressure is decided exactly: the share of 256 / 4096 evenly spaced first words that select each individual must be monotone in the objective.",
         "Random behaviour is covered for all generator answers in the menu within the prefix depth; later draws follow the default stream. Inputs the documentation leaves open (empty population without an Errors section, tournament size 0 or > n, DE selection on < 2y+1 individuals) are outside the alphabet.",
         "DESIGN.md 5 C11"),
+ "C12":("choice-tape explorer","stateless exhaustive exploration of every replacement operator on every pair of small tagged parent/offspring populations and every mu, under all generator-word tapes of the shuffle up to a prefix depth",
+        "Every operator x every pair of parent/offspring populations of size 0..2 (quick) / 0..3 (thorough) over objectives {0,1,2} (with ties and exact duplicates, a sentinel population below) x mu in 0..7 is executed on the real component for every tape of menu words over the first 4 / 5 draws; stack effect, sub-multiset membership and the operator-specific content rule are checked on each execution.",
+        "Random behaviour (RandomReplacement's shuffle) is covered for all menu words within the prefix depth. State after a documented error (unequal sizes) is not constrained by the statement and not checked.",
+        "DESIGN.md 5 C12"),
+ "C13":("grid enumeration + choice-tape explorer","exhaustive enumeration of the functional helpers over all permutations / index tuples / ranges / cut sets / masks, and stateless exhaustive exploration of every variation component under all generator-word tapes up to a prefix depth",
+        "Helpers: both circular swaps on all permutations of length <= 5 (quick) / 7 (thorough) with all tuples of >= 2 distinct indices (70 M cases thorough); both slice translocations on all non-empty ranges and insertion indices; multi-point / uniform / arithmetic / cycle crossover on all cut sets, masks, alpha vectors and permutation pairs. Components: every mutation, crossover and DE operator (parameter grid from the documentation) on populations of 1..3 solutions for every tape of menu words over the first 4 / 5 draws: well-formedness, gene conservation, offspring counts, documented parameter acceptance, no panic, no error on valid populations.",
+        "Random behaviour covered for menu words within the prefix depth; solution lengths <= 5 for components. Documented parameter ranges are read from the doc comments.",
+        "DESIGN.md 5 C13"),
 }
 CHECKS_DONE=1
 BASE=json.load(open('/root/.vp/BASELINE.json'))
